@@ -779,7 +779,12 @@ impl Server {
             let response = if let Some(sync_resp) = sync_response {
                 sync_resp
             } else {
-                self.process_frame(frame, id)?
+                // A command that cannot be carried out is answered with an error reply;
+                // it must not tear down the connection (and the rest of the pipeline)
+                match self.process_frame(frame, id) {
+                    Ok(response) => response,
+                    Err(e) => RespFrame::error(e.to_string()),
+                }
             };
             responses.push(response);
         }
